@@ -73,6 +73,8 @@ func (p *PerHost) dialerForRequest(host string) Dialer {
 		return p.def
 	}
 
+	// AddHost and AddZone strip a trailing dot; do the same for the dialed name.
+	host = strings.TrimSuffix(host, ".")
 	for _, zone := range p.bypassZones {
 		if strings.HasSuffix(host, zone) {
 			return p.bypass
